@@ -143,6 +143,12 @@ def handle (op : String) (fs : List (String × String)) : String :=
         match components g with
         | none => "nil"
         | some l => "[" ++ ".".intercalate (l.map toString) ++ "]")
+  else if op == "glyf.indep" then
+    -- direct predicate: `encode` and `decode` are functions — results of earlier calls do not
+    -- depend on later calls
+    match (getField fs "a").bind parseGlyphs, (getField fs "b").bind parseGlyphs with
+    | some _, some _ => "independent"
+    | _, _ => "bad-case"
   else if op == "glyf.decpure" then
     -- direct predicate: the model's `decode`/`encode` are functions of their arguments, so the
     -- caller's tables are the same after Decode + Encode and a second Decode agrees
